@@ -21,4 +21,4 @@ REQUIRED_CLASSES = {t: ["mask_change:grown", "mask_change:shrunk", "mask_change:
                         "re_enable_feature"]
                     for t in ("quick", "thorough")}
 run_shard, replay, minimise = make(C08Oracle, quick=(1600, 25), thorough=(3200, 40), profile="paint",
-                                   cfg_kwargs={"seg": True})
+                                   cfg_kwargs={"seg": True, "allow_stray": True})
